@@ -1,6 +1,8 @@
 package main
 
 import (
+	"unsafe"
+	"reflect"
 	"bufio"
 	"bytes"
 	"crypto/sha1"
@@ -179,7 +181,13 @@ func crashWorkload(seed uint64, mix string, nops int, disksz uint64, unstable bo
 				s.opWrite(tripleH, uint64(r.Intn(3))*2000, 1000, 0, s.mkData(1000))
 				stableReq = !s.unstable
 			} else if i%12 == 10 && tripleH != nil {
-				s.opCreate("symlink", s.root(), "too-big-for-the-log", 0, pat('n', 600*4096))
+				if (i/12)%2 == 0 {
+					s.opCreate("symlink", s.root(), "too-big-for-the-log", 0, pat('n', 600*4096))
+				} else {
+					// (round 15, C01o) ... or a request ON THE SAME FILE that fails and aborts: the cached inode of the file is
+					// forgotten with whatever the server remembered in it about the unstable write
+					s.opCommit(tripleH, 1<<40, 1)
+				}
 				stableReq = true
 			} else if i%12 == 11 && tripleH != nil {
 				s.opCommit(tripleH, 0, 0)
@@ -795,6 +803,63 @@ func (s *seqRun) postCrashProbe() string {
 		last = l
 		if prev != nil && strings.HasPrefix(l, "# LOCKS ") {
 			prev(l)
+		}
+	}
+	// C12: a file that was never written shows zeros on the recovered server too — a hole-filling READ takes blocks from the
+	// allocator, and an allocator that recovery built wrongly hands it blocks that belong to files committed before the crash
+	if sp := s.mk("create", s.root(), "postcrash-sparse"); sp != nil {
+		// (as many blocks as the probe below writes: enough to reach blocks that recovery wrongly considers free)
+		nsp := 48
+		if s.probeBlocks > 0 {
+			nsp = s.probeBlocks
+		}
+		six := uint64(nsp * 4096)
+		s.opSetattr(sp, &six, timeHow{}, timeHow{})
+		var srd nfstypes.READ3res
+		if s.lastStatus == nfstypes.NFS3_OK && s.guarded("probe sparse", func() {
+			srd = s.readChunks(sp, nsp*4096)
+		}) && srd.Status == nfstypes.NFS3_OK {
+			for i, c := range srd.Resok.Data {
+				if c != 0 {
+					emit("# ORACLE C12 recovered-file-shows-foreign-bytes on the server recovered from this crash image a new file was created, given a size of 48 blocks by SETATTR and read: byte %d (block %d) of this never-written file is %#x, not zero", i, i/4096, c)
+					break
+				}
+			}
+		}
+		s.opRemove("remove", s.root(), "postcrash-sparse")
+	}
+	// ... directed: a block that the rebuilt allocator holds free although the bitmap of the logical disk (read through the
+	// journal) marks it in use is handed to the next hole-filling READ when the allocator's roving pointer stands before it
+	// (any pointer value is a legal allocator state): the never-written file must still read as zeros
+	{
+		st := s.srv.VerifFsState()
+		mem := peekBitmap(st.Balloc)
+		lo, hi := uint64(st.Super.DataStart()), uint64(st.Super.MaxBnum())
+		disk := diskBits(st, uint64(st.Super.BitmapBlockStart()), lo, hi)
+		tried := 0
+		for b := lo; b < hi && tried < 3; b++ {
+			if mem[b/8]&(1<<(b%8)) == 0 && disk[b-lo] == '1' {
+				tried++
+				nextp := reflect.ValueOf(st.Balloc).Elem().FieldByName("next")
+				*(*uint64)(unsafe.Pointer(nextp.UnsafeAddr())) = b - 1
+				name := fmt.Sprintf("postcrash-hole-%d", b)
+				if sp := s.mk("create", s.root(), name); sp != nil {
+					one := uint64(4096)
+					s.opSetattr(sp, &one, timeHow{}, timeHow{})
+					var srd nfstypes.READ3res
+					if s.lastStatus == nfstypes.NFS3_OK && s.guarded("probe hole", func() {
+						srd = s.srv.NFSPROC3_READ(nfstypes.READ3args{File: mkfh3(sp), Offset: 0, Count: 4096})
+					}) && srd.Status == nfstypes.NFS3_OK {
+						for i, c := range srd.Resok.Data {
+							if c != 0 {
+								emit("# ORACLE C12 recovered-file-shows-foreign-bytes on the server recovered from this crash image block %d is marked in use on the logical disk (an allocation committed before the crash) but free in the allocator the server rebuilt; with the allocator's pointer before it, a new file was given a size of one block by SETATTR and read: byte %d of this never-written file is %#x, not zero", b, i, c)
+								break
+							}
+						}
+					}
+					s.opRemove("remove", s.root(), name)
+				}
+			}
 		}
 	}
 	okc := s.hist["create:ok"]
